@@ -39,3 +39,28 @@ func (t *SerializableTime) UnmarshalJSON(data []byte) error {
 
 	return nil
 }
+
+// MarshalYAML implements the yaml.Marshaler interface, so that the YAML form
+// is the same string as the JSON form.
+func (t SerializableTime) MarshalYAML() (interface{}, error) {
+	return t.Format(time.TimeOnly), nil
+}
+
+// UnmarshalYAML implements the (function based) yaml.Unmarshaler interface.
+// Without it a YAML decoder sees the embedded time.Time and insists on an
+// RFC 3339 timestamp.
+func (t *SerializableTime) UnmarshalYAML(unmarshal func(interface{}) error) error {
+	var value string
+	if err := unmarshal(&value); err != nil {
+		return fmt.Errorf("unable to parse time from YAML: %w", err)
+	}
+
+	parsed, err := time.Parse(time.TimeOnly, value)
+	if err != nil {
+		return fmt.Errorf("unable to parse time from YAML: %w", err)
+	}
+
+	t.Time = parsed
+
+	return nil
+}
